@@ -256,7 +256,12 @@ def _failing(g: Gen, rng: Any, sid: str, hz: dict[str, bool], txn_owner: list[st
         r = rng.random()
         if r < 0.5 and tables:
             fq = rng.choice(tables)
-            g.exec(sid, {"t": "create_table", "ref": g.qualify(sid, fq, 0.0), "cols": [["A", "INT"]]}, cur=cur)
+            cols = rng.choice([[["A", "INT"]], [["A", "INT"], ["B", "VARCHAR(99)"]], [["B", "VARCHAR(7)"]]])
+            if rng.random() < 0.3:
+                ref = g.qualify(sid, fq, 0.0)
+                g.exec(sid, {"t": "raw_fail", "sql": f"ALTER TABLE {sp.ref(ref)} ADD COLUMN B VARCHAR(7)", "errs": E_MISSING, "why": "column exists", "needs_ctx": ref}, cur=cur)
+            else:
+                g.exec(sid, {"t": "create_table", "ref": g.qualify(sid, fq, 0.0), "cols": cols, **({"comment": "other"} if rng.random() < 0.3 else {})}, cur=cur)
         elif r < 0.75 and m.sessions[sid].get("txn") is None:
             sch = g.all_schemas()
             if sch:
